@@ -144,6 +144,8 @@ def _nets(E):
                     v.append(v[nd[1]] + v[nd[2]])
                 elif k == 'cat':
                     v.append(torch.cat([v[j] for j in nd[1]], dim=1))
+                elif k == 'call':
+                    v.append(getattr(s, 'n%d' % nd[2])(v[nd[1]]))
                 else:
                     v.append(getattr(s, 'n%d' % i)(v[nd[1]]))
             return v[s.out]
@@ -188,6 +190,16 @@ GSPECS = {
                                                ('conv', 6, 5, 3, {'groups': 5}), ('bn', 7), ('add', 8, 6),
                                                ('pool', 9), ('flat', 10), ('lin', 11, 6), ('bn', 12), ('relu', 13), ('lin', 14, 3)],
                            out=15, excluded=[]),
+    # a layer invoked at two call sites, one inside the net and one summed into the output: h = relu(mix(z)); out = mix(h) + skip(h)
+    # (('call', src, j) applies the module of node j to node src: same weights, same output features at both sites)
+    'pit-twice-out': dict(nodes=[('in', 3), ('conv', 0, 4, 3, {}), ('relu', 1), ('conv', 2, 4, 3, {}), ('relu', 3),
+                                 ('call', 4, 3), ('conv', 4, 4, 1, {}), ('add', 5, 6)], out=7, excluded=[]),
+    # same with the operands of the add swapped and a BN + ReLU between the add and the output
+    'pit-twice-out-rev': dict(nodes=[('in', 3), ('conv', 0, 4, 3, {}), ('relu', 1), ('conv', 2, 4, 3, {}), ('relu', 3),
+                                     ('conv', 4, 4, 1, {}), ('call', 4, 3), ('add', 5, 6), ('relu', 7)], out=8, excluded=[]),
+    # the twice-used layer is internal at both sites (not tied), its consumer is the output layer
+    'pit-twice-inner': dict(nodes=[('in', 3), ('conv', 0, 4, 3, {}), ('relu', 1), ('conv', 2, 4, 3, {}), ('relu', 3),
+                                   ('call', 4, 3), ('relu', 5), ('pool', 6), ('flat', 7), ('lin', 8, 3)], out=9, excluded=[]),
 }
 
 
@@ -209,6 +221,8 @@ def gnet_channels(nodes):
             ch.append(nd[2])
         elif k == 'add':
             ch.append(ch[nd[1]])
+        elif k == 'call':
+            ch.append(ch[nd[2]])
         elif k == 'cat':
             ch.append(sum(ch[i] for i in nd[1]))
         else:
@@ -244,6 +258,8 @@ def io_tied_layers(spec):
             union(i, nd[1]); union(i, nd[2])
         elif k == 'conv' and depthwise(i):
             union(i, nd[1])
+        elif k == 'call':
+            union(i, nd[2])       # the same layer: the same output features at every call site
     tied = {find(i) for i, nd in enumerate(nodes) if nd[0] == 'in'} | {find(out)}
     for e in excluded:
         tied |= {find(e), find(nodes[e][1])}
